@@ -565,7 +565,7 @@ STUBS = [(2.0, 1.0), (-3.0, 0.5), (0.5, -2.0), (4.0, 3.0)]
 
 
 @obligation("C08.composite_is_left_fold", function=FC + ":CompositeConstraint.forward; " + FC + ":CompositeConstraint.__init__; " + FC + ":CompositeConstraint.add_constraint; " + FU + ":apply_constraint_chain; " + FU + ":combine_constraints",
-            configs=lambda tier: [Cfg(api, k) for api in ("composite", "chain", "combine", "add") for k in range(0, 5)], crosscheck=2)
+            configs=lambda tier: [Cfg(api, k) for api in ("composite", "chain", "combine", "add") for k in range(0, 5)] + [Cfg(api, k) for api in ("add_after_call", "nested_add_after_call") for k in range(2, 5)], crosscheck=2)
 def composite_fold(ctx, cfg):
     from kaira.constraints import CompositeConstraint
     from kaira.constraints.utils import apply_constraint_chain, combine_constraints
@@ -586,6 +586,21 @@ def composite_fold(ctx, cfg):
             comp.add_constraint(p)
         if k == 0:
             comp = CompositeConstraint([])
+        out = ctx.call(comp.forward, x)
+    elif api in ("add_after_call", "nested_add_after_call"):
+        # history: the composite has been CALLED before parts are added (to it, or to a composite nested inside it); the next
+        # call must apply the parts it holds now
+        if api == "add_after_call":
+            comp = target = CompositeConstraint(parts[:1])
+        else:
+            target = CompositeConstraint(parts[:1])
+            comp = CompositeConstraint([target])
+        with torch.no_grad():
+            comp(torch.tensor([0.25, -1.0, 2.0]))
+        for p in parts[1:]:
+            target.add_constraint(p)
+        for p in parts:
+            p.calls = 0
         out = ctx.call(comp.forward, x)
     else:
         if k == 0:
